@@ -306,6 +306,11 @@ def main():
         'wall_s': wall,
         'violations': len(violations) + (1 if exit_code == 1 and not violations else 0),
     }
+    if discharged == 0:
+        # nothing was kernel-checked in this run (broken build or audit): do not present proof counts
+        cov = evidence['coverage']
+        cov['theorems_stated'] = cov.pop('obligations')
+        cov['theorems_discharged'] = cov.pop('discharged')
     with open(os.path.join(EVIDENCE, pid + '.json'), 'w') as f:
         json.dump(evidence, f, indent=1, ensure_ascii=True, default=str)
     log('%s %s: theorems=%d discharged=%d cases=%d compared=%d disagreements=%d violations=%d wall=%.1fs build=%.1fs' % (
